@@ -111,6 +111,22 @@ SIGNATURES = {
     "C13": [("fb-cycle-member-executed-without-cycle-detection", sig_c13_participant_reexecuted),
             ("fb-function-leaves-cycle-dependents-validated", sig_c13_leaves_cycle)],
 }
+def sig_c26_uninit_ingredient(job, ops):
+    """F5: after restoring a serialized database, validating a restored memo whose dependency is a persisted
+    function of a *different* tracked fn that has not been called yet in the new database panics with
+    "tracked function ingredients cannot be accessed before calling `init`" (the view caster of a function
+    ingredient is only initialised by a direct call)."""
+    restored = False
+    for op in ops:
+        if op[0].get("op") == "persist":
+            restored = True
+        if restored and any(e.get("e") == "ret" and e.get("ok") == 0 and "cannot be accessed before calling `init`" in e.get("msg", "") for e in op):
+            return True
+    return False
+
+
+SIGNATURES["C26"] = [("function-ingredient-not-initialised-after-restore", sig_c26_uninit_ingredient)]
+
 # C18 requires the single-threaded results of C12/C13 under concurrency: the same two findings show there
 SIGNATURES["C18"] = SIGNATURES["C13"]
 
